@@ -316,7 +316,9 @@ class FnVerifier:
                 if isinstance(ft, tuple) and ft[0] == "optional":
                     ft = ft[1]
                     fields["__missing_" + fn_] = V(T.Bool, z3.Bool("%s.%s?missing" % (name, fn_)))
-                if ft.heap:
+                if ft.kind == "nullable":
+                    fields[fn_] = V(ft, (z3.Bool("%s.%s?none" % (name, fn_)), self.alloc_symbolic(R, ft.inner, "%s.%s" % (name, fn_))))
+                elif ft.heap:
                     fields[fn_] = self.alloc_symbolic(R, ft, "%s.%s" % (name, fn_))
                 else:
                     fields[fn_] = V(ft, z3.Const("%s.%s" % (name, fn_), ft.sort()))
@@ -324,6 +326,8 @@ class FnVerifier:
         raise EngineError("alloc_symbolic(%s)" % ty)
 
     def symbolic_value(self, R, ty, name):
+        if isinstance(ty, T.Ty) and ty.kind == "nullable":
+            return V(ty, (z3.Bool(name + "?none"), self.alloc_symbolic(R, ty.inner, name)))
         if isinstance(ty, T.Ty):
             if ty.heap:
                 return self.alloc_symbolic(R, ty, name)
@@ -381,9 +385,84 @@ class FnVerifier:
                 return cc
         return None
 
+    def ext_key(self, name, args):
+        """externals may be specialised on a literal first argument:  Env.get("XONSH_DEBUG")"""
+        if args and isinstance(args[0], V) and args[0].t.kind == "str":
+            z = zsimp(args[0].z)
+            if z3.is_string_value(z):
+                k2 = '%s("%s")' % (name, z.as_string())
+                if k2 in self.c.externals:
+                    return k2
+        return name if name in self.c.externals else None
+
+    def call_opaque_method(self, R, recv, mname, args, kwargs, node):
+        key = self.ext_key("%s.%s" % (recv.t.name, mname), args)
+        if key is None:
+            raise Unsupported("call to undeclared method %s.%s (line %s)" % (recv.t.name, mname, getattr(node, "lineno", "?")))
+        return self.apply_ext(R, key, self.c.externals[key], args, kwargs, node, None, recv=recv)
+
+    def opaque_attr(self, R, base, attr, node):
+        key = "%s.%s" % (base.t.name, attr)
+        ext = self.c.externals.get(key)
+        if ext is not None and getattr(ext, "is_attr", False):
+            return self.apply_ext(R, key, ext, [], {}, node, None, recv=base)
+        return None
+
+    def log_type(self, evname):
+        for ext in self.c.externals.values():
+            if ext.event == evname and getattr(ext, "log_type", None) is not None:
+                return ext.log_type
+        return T.Str
+
+    def statement_asserts(self, R, node, frame):
+        if R.pure:
+            return
+        seg = None
+        for a in self.c.asserts:
+            if seg is None:
+                seg = (ast.get_source_segment(self.src, node) or "").strip()
+            if seg.startswith(a["before"]):
+                g = R.truthy(R.spec_eval_in_frame(a["clause"], frame, {}))
+                self.add_obligation(R, "assert", a["label"], g, clause=a["clause"], line=node.lineno)
+
+    def events_in(self, stmts):
+        """event names that the statements may emit (syntactic); None = unknown callee -> all"""
+        names = set()
+        unknown = False
+        for s_ in stmts:
+            for n in ast.walk(s_):
+                if isinstance(n, ast.Call):
+                    try:
+                        dn = ast.unparse(n.func)
+                    except Exception:
+                        dn = ""
+                    last = dn.split(".")[-1]
+                    hit = False
+                    for k, ext in self.c.externals.items():
+                        kb = k.split("(")[0]
+                        if kb == dn or kb.split(".")[-1] == last:
+                            hit = True
+                            if ext.event:
+                                names.add(ext.event)
+                    if not hit and (self.find_contract(last) is not None or dn.startswith("self.")):
+                        unknown = True
+        return None if unknown else names
+
+    def havoc_logs(self, R, stmts, key):
+        evs = self.events_in(stmts)
+        for gk in list(R.ghost.keys()):
+            if isinstance(gk, tuple) and gk[0] == "log" and (evs is None or gk[1] in evs):
+                R.ghost[gk] = fresh(R.ghost[gk].t, "log_" + gk[1].replace(".", "_"))
+        if evs:
+            for e in evs:
+                if ("log", e) not in R.ghost:
+                    st = T.Seq(self.log_type(e))
+                    R.ghost[("log", e)] = fresh(st, "log_" + e.replace(".", "_"))
+
     def call_named(self, R, name, args, kwargs, node, frame):
-        if name in self.c.externals:
-            return self.apply_ext(R, name, self.c.externals[name], args, kwargs, node, frame)
+        ek = self.ext_key(name, args)
+        if ek is not None:
+            return self.apply_ext(R, ek, self.c.externals[ek], args, kwargs, node, frame)
         if R.pure:
             g = R.base_env.get(name)
             if g is not None and g.is_const and callable(g.z):
@@ -406,8 +485,9 @@ class FnVerifier:
     def call_method(self, R, recv, mname, args, kwargs, node, frame):
         cls = recv.t.cls
         for key in ("%s.%s" % (cls, mname), "self." + mname):
-            if key in self.c.externals:
-                return self.apply_ext(R, key, self.c.externals[key], args, kwargs, node, frame, recv=recv)
+            ek = self.ext_key(key, args)
+            if ek is not None:
+                return self.apply_ext(R, ek, self.c.externals[ek], args, kwargs, node, frame, recv=recv)
         cc = self.find_contract(mname, recv_cls=cls)
         if cc is not None:
             return self.modular_call(R, cc, recv, args, kwargs, node, frame)
@@ -437,6 +517,14 @@ class FnVerifier:
             raise EngineError("effectful external %s in spec" % name)
         if ext.event:
             R.trace.append(Event(ext.event, args, kwargs))
+            li = ext.log if ext.log is not None else 0
+            if li < len(args) and not args[li].is_const and not args[li].t.heap:
+                lt = self.log_type(ext.event)
+                st = T.Seq(lt)
+                cur = R.ghost.get(("log", ext.event))
+                if cur is None:
+                    cur = V(st, z3.Empty(st.sort()))
+                R.ghost[("log", ext.event)] = V(st, z3.Concat(cur.z, z3.Unit(R.coerce(args[li], lt).z)))
             h = self.c.hooks.get("event")
             if h:
                 h(R, R.trace[-1], node)
@@ -467,6 +555,8 @@ class FnVerifier:
         env["result"] = res
         for en in ext.ensures:
             R.assume(R.truthy(self.spec_in_env(R, en, env, old_heap=old)))
+        if ext.bind:
+            R.base_env[ext.bind] = res
         return res
 
     def spec_in_env(self, R, src, env, old_heap=None, frame=None, entry_heap=None):
@@ -599,6 +689,9 @@ class FnVerifier:
             for lbl, rq in c.requires.items():
                 R.assume(R.truthy(self.spec_in_env(R, rq, R.base_env)))
             R.n_requires = len(R.pc)
+            for gname, gsrc in c.ghost_inputs.items():
+                gv = self.spec_in_env(R, gsrc, R.base_env)
+                R.inputs.append((gname, term_tree(R, gv, R.entry_heap)))
             if self.is_generator:
                 frame.yielded = []
             h = c.hooks.get("entry")
@@ -736,4 +829,8 @@ class FnVerifier:
         t0 = time.time()
         explore(self.run_one)
         self.stats["gen_s"] = time.time() - t0
+        if self.bounded_notes:
+            why = "; ".join("loop %s unrolled %d times (no invariant)" % kv for kv in sorted(self.bounded_notes.items()))
+            for ob in self.obligations.values():
+                ob.bounded = why
         return list(self.obligations.values())
